@@ -64,3 +64,52 @@ Theorem C06_lut_fix_spec : forall fuel T b X Y, lut_fix fuel T b X = Some Y ->
             forall m, (m < n)%nat -> lut_step T b (lut_iter m T b X) <> lut_iter m T b X.
 Proof. exact lut_fix_spec. Qed.
 Print Assumptions C06_lut_fix_spec.
+
+From Centro Require Import Proofs.LutSparse Proofs.LutDispatch.
+From Centro Require Proofs.LutExamples.   (* satisfiability examples for the hypotheses below *)
+Import ListNotations.
+
+(* Full: one pass of index_lookup on the border-padded copy (mark, clear, compact) maps the
+   representation of an image to the representation of lut_step of that image, for every erosive
+   table, shape and border value (the loop invariant of the sparse path) *)
+Theorem C06_sparse_pass_correct : forall T b, erosive T -> forall X st,
+  (0 < length X)%nat -> Inv b X st ->
+  Inv b (lut_step T b X) (il_pass (length X + 2) (length (hd [] X) + 2) T st).
+Proof. exact il_pass_correct. Qed.
+Print Assumptions C06_sparse_pass_correct.
+
+(* Full: prepare + index_lookup(k) + extract = k applications of the rule *)
+Theorem C06_sparse_path_correct : forall T b, erosive T -> forall k X,
+  (0 < length X)%nat -> rect X -> sparse T b (Some k) X = lut_iter k T b X.
+Proof. exact sparse_k_correct. Qed.
+Print Assumptions C06_sparse_path_correct.
+
+(* Full: iterations=None on the sparse path (len(index_i) passes at most) returns a fixed point *)
+Theorem C06_sparse_until_unchanged_correct : forall T b, erosive T -> forall X,
+  (0 < length X)%nat -> rect X ->
+  let n := length (argwhere1 X) in
+  sparse T b None X = lut_iter n T b X /\ lut_step T b (lut_iter n T b X) = lut_iter n T b X.
+Proof. exact sparse_none_correct. Qed.
+Print Assumptions C06_sparse_until_unchanged_correct.
+
+(* Full: the inverted-table trick *)
+Theorem C06_inverted_path_correct : forall n T b X,
+  (0 < length X)%nat -> rect X -> lut_iter n (inv_table T) (negb b) (gnot X) = gnot (lut_iter n T b X).
+Proof. exact inverted_iter. Qed.
+Print Assumptions C06_inverted_path_correct.
+
+Theorem C06_inverted_table_erosive : forall T, extensive T -> erosive (inv_table T).
+Proof. exact inv_erosive. Qed.
+Print Assumptions C06_inverted_table_erosive.
+
+(* Full: the dispatch as a whole, any table / dtype class / rectangular image / border / count *)
+Theorem C06_table_lookup_correct : forall dt X T b k,
+  (0 < length X)%nat -> rect X -> table_lookup dt X T b (Some k) = Some (lut_iter k T b X).
+Proof. exact table_lookup_correct. Qed.
+Print Assumptions C06_table_lookup_correct.
+
+Theorem C06_table_lookup_until_unchanged_correct : forall dt X T b Y,
+  (0 < length X)%nat -> rect X -> table_lookup dt X T b None = Some Y ->
+  lut_step T b Y = Y /\ exists n, Y = lut_iter n T b X.
+Proof. exact table_lookup_none_correct. Qed.
+Print Assumptions C06_table_lookup_until_unchanged_correct.
